@@ -106,6 +106,33 @@ Theorem C17_step_generators_partial : forall P sch op s,
 Proof. intros; split; [apply step_cursor_monotone|apply step_np]. Qed.
 Print Assumptions C17_step_generators_partial.
 
+(* --- at every checkpoint the hall of fame's key list is the reversed fitness list of its items: the two pickled
+   lists are consistent in every reachable state (losing either one breaks bisect_right after a resume) ------- *)
+Theorem C17_hof_keys_consistent_partial : forall P sch gs pop0 hofmax,
+  let s := run (step P sch) gs (init_state pop0 hofmax) in
+  hof_keys (st_hof s) = rev (map fitw (hof_items (st_hof s))).
+Proof. intros. apply run_hof_consistent, init_hof_consistent. Qed.
+Print Assumptions C17_hof_keys_consistent_partial.
+
+(* --- the logbook at every checkpoint: one record per generation operation, every record streamed (buffindex =
+   number of records), both chapters aligned with the main record list and never streamed themselves ---------- *)
+Theorem C17_logbook_aligned_partial : forall P sch gs pop0 hofmax,
+  let lg := st_log (run (step P sch) gs (init_state pop0 hofmax)) in
+  length (lb_recs lg) = length gs /\
+  lb_buff lg = Z.of_nat (length gs) /\
+  Forall (fun c => length (sl_recs (snd c)) = length gs /\ sl_buff (snd c) = 0) (lb_chapters lg).
+Proof.
+  intros P sch gs pop0 hofmax lg.
+  pose proof (run_log_count P sch gs (init_state pop0 hofmax)) as N. cbn [init_state st_log lb_recs length] in N.
+  rewrite Nat.add_0_r in N. fold lg in N.
+  destruct (run_log_aligned P sch gs _ (init_log_aligned pop0 hofmax)) as [B [[Hc _]|[a [b [Hc [La [Lb [Ba Bb]]]]]]]];
+    fold lg in B, Hc.
+  - split; [exact N|]. split; [rewrite B; unfold zlen; rewrite N; reflexivity|]. rewrite Hc. constructor.
+  - fold lg in La, Lb. split; [exact N|]. split; [rewrite B; unfold zlen; rewrite N; reflexivity|].
+    rewrite Hc. repeat constructor; cbn [snd]; congruence.
+Qed.
+Print Assumptions C17_logbook_aligned_partial.
+
 (* --- non-vacuity ---------------------------------------------------------------------------------------------- *)
 Definition exP : params :=
   mkparams 2 (1, 2) (1, 2) (1, 4) [1] 0
